@@ -73,6 +73,9 @@ def run(ctx: Context) -> None:
     from . import c18
     ctx.rule(c18.r1_writers)
     ctx.rule(r10_derived_sources_private)
+    # objects that travel by pickle come back bit-for-bit only through the default protocol: __getstate__ / __setstate__ / __reduce__ hooks on the way (C05-R2c)
+    from . import c05
+    ctx.rule(c05.r2c_pickle_hooks)
 
 
 def _self_path(e: ast.expr, self_name: str | None) -> str | None:
